@@ -394,6 +394,9 @@ type batch struct {
 	parallel  int
 	reqs      []*request
 	noRoute   int // 0 default 404 handler, 1 custom
+	// the log destination has a size limit or fails now and then: it notes every record it is offered and answers some
+	// with an error. What Relay owes the client does not depend on whether the log could be written.
+	sinkRejectsOver, sinkRejectsEvery int
 }
 
 func (b *batch) render() string {
@@ -409,6 +412,12 @@ func genBatch(t *rapid.T) *batch {
 		kind:      rapid.IntRange(0, 2).Draw(t, "handler"),
 		threshold: rapid.SampledFrom([]slog.Level{logger.LevelDebug, logger.LevelInfo, logger.LevelInfo, logger.LevelWarn, logger.LevelError, logger.LevelFatal, -5, 1, 3, 5, 7, 11, 13, 17}).Draw(t, "threshold"),
 		parallel:  rapid.SampledFrom([]int{1, 1, 2, 4, 8, 16}).Draw(t, "parallel"),
+	}
+	switch rapid.IntRange(0, 5).Draw(t, "logDestination") {
+	case 0:
+		b.sinkRejectsOver = rapid.SampledFrom([]int{1, 200, 512}).Draw(t, "rejectsOver") // the Error record with its stack is the long one
+	case 1:
+		b.sinkRejectsEvery = rapid.SampledFrom([]int{1, 2, 3, 5}).Draw(t, "rejectsEvery")
 	}
 	n := rapid.IntRange(1, 12).Draw(t, "nreqs")
 	if b.parallel > 1 {
@@ -503,7 +512,7 @@ func genBatch(t *rapid.T) *batch {
 }
 
 func runBatch(b *batch, realServer bool) string {
-	sink := &lm.Sink{}
+	sink := &lm.Sink{RejectOver: b.sinkRejectsOver, RejectEvery: b.sinkRejectsEvery}
 	lg := logger.New(lm.NewHandler(b.kind, sink, logger.NewOptions(b.threshold, false, false)))
 	mux := httpd.NewMux()
 	theMux = mux
@@ -775,6 +784,9 @@ func TestBatches(t *testing.T) {
 			if rq.proxyHeader != "" {
 				ev.Label("request_names_another_client_address_in_" + rq.proxyHeader)
 			}
+		}
+		if b.sinkRejectsOver > 0 || b.sinkRejectsEvery > 0 {
+			ev.Label("log_destination_refuses_some_records")
 		}
 		ev.Label("handler:" + lm.HandlerNames[b.kind] + "/" + thresholdName(b.threshold))
 		ev.LabelN("requests", int64(len(b.reqs)))
